@@ -16,7 +16,7 @@ class C34(vlib.Spec):
         "Sim's model of the real simulator (SimTick [write hook; read hook] of any batch hook kinds decided by "
         "run_hooks; atomic snapshot = state after the tick's writes) and (2) over the production model: an "
         "acknowledgement released in tick i is contained in every atomic snapshot read in a tick j >= i; acks are "
-        "exactly the writes that entered; a stale (non-atomic) snapshot refutes it. Tie: (a) a keyed-counter flow "
+        "exactly the writes that entered; a stale (non-atomic) snapshot refutes it. Tie: (a) a keyed-counter flow and an unkeyed sum flow (Singleton state) "
         "(atomic count, end_atomic acks, `use::atomic` reads) through the PRODUCTION embedded builder on random tick "
         "partitions, per-tick acks/read responses compared with the model; (b) the atomic tick's hooks on the REAL "
         "simulator hook objects and the real run_hooks (harness h_sim, scripted bolero driver) over multi-round "
@@ -40,11 +40,14 @@ class C34(vlib.Spec):
             nt = rng.range(1, 7 if tier == "quick" else 12)
             ticks = [{"w": [rng.below(4) for _ in range(rng.below(5))],
                       "r": [rng.below(4) for _ in range(rng.below(5))]} for _ in range(nt)]
-            cases.append({"flow": "c34_counter", "ticks": ticks})
+            cases.append({"flow": "c34_counter" if len(cases) % 2 == 0 else "c34_sum", "ticks": ticks})
         # the unified atomic tick on the real simulator hooks: [write hook; read hook]
         for _ in range(n // 2):
-            kinds = [rng.choice(["stream_t", "keyed_t"]), rng.choice(["stream_t", "stream_n", "keyed_t", "keyed_n"])]
+            batch_kinds = ["stream_t", "stream_n", "keyed_t", "keyed_n"]
+            nw, nr = rng.range(1, 2), rng.range(1, 2)
+            kinds = [rng.choice(batch_kinds) for _ in range(nw + nr)]
             sim = hydrob.gen_sim_tick(rng, kinds, rng.range(1, 5 if tier == "quick" else 8), keys=4)
+            sim["nw"] = nw
             cases.append({"k": "echo", "sim": sim})
         hydrob.sim_results(self.ctx, cases)
         return cases
@@ -52,6 +55,8 @@ class C34(vlib.Spec):
     def to_coq(self, case, res):
         if case.get("k") == "echo":
             return hydrob.c34_sim_term(case["sim"], hydrob.sim_result(self.ctx, case))
+        if case.get("flow") == "c34_sum":
+            return hydrob.c34_sum_term(case, res)
         return hydrob.c34_term(case, res)
 
     def describe(self, case, res):
